@@ -735,7 +735,7 @@ func (c *Ctx) loadPtr(st *State, p *Ptr) Val {
 	case PElem:
 		if p.Cast32 {
 			b := func(k uint64) string {
-				return c.loadElem(st, types.Typ[types.Uint8], p.Obj, app("bvadd", p.Idx, bvU(k, 64))).L[0]
+				return c.loadElem(st, p.ElemT, p.Obj, app("bvadd", p.Idx, bvU(k, 64))).L[0]
 			}
 			return Val{T: types.Typ[types.Uint32], L: []string{app("concat", b(3), b(2), b(1), b(0))}}
 		}
@@ -768,7 +768,7 @@ func (c *Ctx) storePtr(st *State, p *Ptr, v Val) {
 		if p.Cast32 {
 			for k := 0; k < 4; k++ {
 				byteV := app(fmt.Sprintf("(_ extract %d %d)", 8*k+7, 8*k), v.L[0])
-				c.storeElem(st, types.Typ[types.Uint8], p.Obj, app("bvadd", p.Idx, bvU(uint64(k), 64)), Val{T: types.Typ[types.Uint8], L: []string{byteV}})
+				c.storeElem(st, p.ElemT, p.Obj, app("bvadd", p.Idx, bvU(uint64(k), 64)), Val{T: p.ElemT, L: []string{byteV}})
 			}
 			return
 		}
